@@ -31,9 +31,30 @@ class TestCfgFacts(factlib.Facts):
     """Facts view in which every crate resolves to its cfg(test) build when there is one."""
 
     def crate(self, name, test=False):
-        if (name, True) in self._files:
-            return super().crate(name, True)
-        return super().crate(name, False)
+        if (name, True) not in self._files:
+            return super().crate(name, False)
+        k = (name, "testview")
+        if k not in self._crates:
+            c = super().crate(name, True)
+            if (name, False) in self._files:
+                # bodies that exist only under cfg(test) (unit tests and their helpers) are additional callers, not the code the property is
+                # about; what the view must show is every item of the normal build as it is compiled under cfg(test)
+                normal = super().crate(name, False)
+                keep = set(normal.by_key)
+                raw = dict(c.raw)
+                raw["bodies"] = [b for b in c.bodies if b["key"] in keep or _closure_of_kept(b["key"], keep)]
+                c = factlib.Crate(raw, self.repo)
+            self._crates[k] = c
+        return self._crates[k]
+
+
+def _closure_of_kept(key, keep):
+    """closures / nested items of a kept function keep their parent's status (their ordinal may differ between the two builds)."""
+    while "::" in key:
+        key = key.rsplit("::", 1)[0]
+        if key in keep:
+            return True
+    return False
 
 
 def cfg_test_agreement(mod, pid, repo, R):
